@@ -116,7 +116,11 @@ let () =
                let idd = (try List.map (fun r -> List.map (fun x -> z_of_int (int_of_string x)) (split ',' r)) (split '/' (oget "d")) with _ -> dd) in
                cmp "ds" (jn (List.map (fun i -> match disc_score idd ss (nat_of_int i) with Ok b -> string_of_int (int_of_z b) | _ -> "P") positions));
                (* u8 kernels, on the implementation's discrete cells *)
-               let full a = show_scores (score_u8 a idd pads ss) in
+               let full =
+                 let memo = Hashtbl.create 3 in
+                 fun a -> (match Hashtbl.find_opt memo a with
+                           | Some v -> v
+                           | None -> let v = show_scores (score_u8 a idd pads ss) in Hashtbl.add memo a v; v) in
                let sub = List.map int_of_string (split ':' (get "sub")) in
                let part a = show_scores (score_rows_dispatch a idd pads ss (nat_of_int (List.nth sub 0)) (nat_of_int (List.nth sub 1))) in
                let cmpk key model = if oget key <> "U" then cmp key model in
@@ -146,7 +150,14 @@ let () =
                    | Some (rows, _, cells) when rows > 0 ->
                        (try Some (List.map (fun i -> cells.((i mod rows) * 32 + i / rows)) positions) with _ -> None)
                    | _ -> None in
-               let sources = ["ds"; "gen"; "avx"; "dG"; "dS"; "dA"] in
+               (* byte sources; a source whose byte scores equal those of an earlier source is checked once *)
+               let sources =
+                 let seen = ref [] in
+                 List.filter (fun key ->
+                     match u8s_of key with
+                     | None -> false
+                     | Some u -> if List.mem u !seen then false else (seen := u :: !seen; true))
+                   ["ds"; "gen"; "avx"; "dG"; "dS"; "dA"] in
                let tag () = if well_conditioned mat ifac then "" else "ill-conditioned " in
                if in_theorem && List.length ireals = npos then begin
                  (* (a) scale recomputed by the model from the observed factor / offset *)
